@@ -210,6 +210,16 @@ def queue_order_rules(rep, prog, rid):
                   "%s moves elements of `thin` (%s) without clearing the dedupe index or re-pointing the displaced key: a later duplicate enqueue overwrites a different candidate" % (
                       f.name, [(f.callee_of(f.blocks[b]["t"]) or "").rsplit("::", 1)[-1] for b in movers]), site=f.loc())
     rep.check(n_movers >= 1, rid, "dedupe-index:movers-found", "%d PendingTx function(s) reorder thin (drain)" % n_movers, "no function reorders thin (drain vanished?)", site=PT)
+    # candidate state is per transaction: every scheduler field that can hold candidates or their footprints is a map keyed
+    # by TxId.  A side slot (a recycled queue, a cache) lets one transaction's candidates reach another tick's drain.
+    for sname in ("RadixScheduler", "LegacyScheduler"):
+        adt_ = prog.adt(SCHED + sname)
+        for fld_ in adt_["variants"][0]["fields"]:
+            ty_ = fld_["ty"]
+            if re.search(r"PendingRewrite|PendingTx|Footprint", ty_):
+                rep.check(ty_.startswith("std::collections::BTreeMap<warp_core::tx::TxId,"), rid, "candidates-are-per-transaction:%s.%s" % (sname, fld_["n"]),
+                          "keyed by TxId", "%s.%s: %s holds candidate state outside the per-transaction map: candidates of one transaction (e.g. an aborted one) can leak into "
+                          "another tick's drain" % (sname, fld_["n"], ty_[:120]), site=SCHED + sname)
     renq = prog.fn(SCHED + "RadixScheduler::enqueue")
     ogr = renq.origins()
     for b in renq.call_sites(r"PendingTx::<P>::enqueue$"):
